@@ -181,21 +181,28 @@ func checkC01(expr string, d interface{}, m *rv, unknown interface{}, um *rv) {
 func H_C01_match() {
 	vc := vChoose(nValuesC01)
 	op := vChoose(8)
-	if vTier() == 0 {
-		vAssume((vc+op)%12 == vSeed()%12) // quick: a seed-selected twelfth of the (shape, operator) pairs
-	}
 	xv, xm := valueC01(vc)
 	yv, ym := scalarC01(0)
 	d := map[string]interface{}{"x": xv, "y": yv}
 	m := &rv{kind: rvMap, keys: []string{"x", "y"}, vals: []*rv{xm, ym}}
-	nsel, nlit, nunk := len(selsC01), len(litsC01), 4
+	var sel, lit string
+	withUnknown, unk := false, 0
 	if vTier() == 0 {
-		nsel, nlit, nunk = 8, 3, 8
+		// quick: every (shape, operator) pair, with the three direct selector
+		// forms plus one seed-selected other, "1" plus one seed-selected
+		// literal, no unknown value or one seed-selected
+		sel = selsC01[[]int{0, 1, 2, 3 + vSeed()%12}[vChoose(4)]]
+		lit = litsC01[[]int{0, 1 + vSeed()%5}[vChoose(2)]]
+		withUnknown, unk = vChoose(2) == 0, vSeed()%3
+	} else {
+		sel = selsC01[vChoose(len(selsC01))]
+		lit = litsC01[vChoose(len(litsC01))]
+		if vChoose(4) == 0 {
+			withUnknown, unk = true, vChoose(3)
+		}
 	}
-	sel := selsC01[vChoose(nsel)]
-	lit := litsC01[vChoose(nlit)]
-	if vChoose(nunk) == 0 {
-		u, um := scalarC01(vChoose(3))
+	if withUnknown {
+		u, um := scalarC01(unk)
 		checkC01(leavesC01(sel, op, lit), d, m, u, um)
 	} else {
 		checkC01(leavesC01(sel, op, lit), d, m, nil, nil)
@@ -212,14 +219,20 @@ var compositesC01 = []string{
 func H_C01_composite() {
 	vc := vChoose(nValuesC01)
 	op := vChoose(8)
-	if vTier() == 0 {
-		vAssume((vc+op)%12 == vSeed()%12)
-	}
 	xv, xm := valueC01(vc)
 	yv, ym := scalarC01(0)
 	d := map[string]interface{}{"x": xv, "y": yv}
 	m := &rv{kind: rvMap, keys: []string{"x", "y"}, vals: []*rv{xm, ym}}
-	lit := litsC01[vChoose(2)]
+	var lit string
+	ti := 0
+	if vTier() == 0 {
+		// quick: every (shape, operator) pair under three seed-selected templates and one literal
+		lit = litsC01[vSeed()%2]
+		ti = (vSeed() + 5*vChoose(3)) % len(compositesC01)
+	} else {
+		lit = litsC01[vChoose(2)]
+		ti = vChoose(len(compositesC01))
+	}
 	si := vChoose(3)
 	A := leavesC01([]string{"x", "x.a", "x.0"}[si], op, lit)
 	B := `y == 1`
@@ -227,7 +240,7 @@ func H_C01_composite() {
 	V := leavesC01("v", op, lit)
 	K := leavesC01("k", op, lit)
 	F := leavesC01("f", op, lit)
-	t := compositesC01[vChoose(len(compositesC01))]
+	t := compositesC01[ti]
 	expr := ""
 	for i := 0; i < len(t); i++ {
 		switch t[i] {
